@@ -176,8 +176,8 @@ def enum_observation(ctx, plain, cases):
         if c["r"] == "ok" and len(body) == 1 and body[0][0] not in ("TNUMBER",):
             sel.append((c, body[0]))
     if ctx.quick and len(sel) > 2500:
-        kws = [x for x in sel if x[1][0] != "TIDENT"]
-        sel = kws + ctx.rng.sample([x for x in sel if x[1][0] == "TIDENT"], 2500 - len(kws))
+        kws = [x for x in sel if x[1][0] != "TIDENT" or x[0]["f"]]
+        sel = kws + ctx.rng.sample([x for x in sel if x[1][0] == "TIDENT" and not x[0]["f"]], 2500 - len(kws))
 
     def one(x):
         c, tok = x
@@ -190,7 +190,11 @@ def enum_observation(ctx, plain, cases):
         n += 1
         want_ok = tok[0] == "TIDENT"
         ctx.count("enum:" + word.decode("latin-1"), nontrivial=True)
-        if (rc == 0) != want_ok:
+        if (rc == 0) != want_ok and c["f"]:
+            for d in sorted(c["f"]):      # e.g. a universal character name in the word: same named deviation as in the token dump
+                ctx.violation("lex:dev:" + d, "`enum { %s };` %s although Lex classifies the word as %s" % (word.decode(), "accepted" if rc == 0 else "rejected", tok[0]),
+                              {"word": word.decode(), "rc": rc, "stderr": err[-200:], "expected_kind": tok[0], "fired": sorted(c["f"])})
+        elif (rc == 0) != want_ok:
             ctx.violation("kw:enum:%s" % ("keyword-accepted-as-identifier" if not want_ok else "identifier-rejected"),
                           "`enum { %s };` %s but Lex classifies the word as %s" % (word.decode(), "accepted" if rc == 0 else "rejected", tok[0]),
                           {"word": word.decode(), "rc": rc, "stderr": err[-200:], "expected_kind": tok[0]})
